@@ -218,6 +218,35 @@ def u_method_chain(n, r):
             'print(cls_B{n}().meth_add{n}(1).meth_add{n}(2).meth_total{n}())'], {}
 
 
+def u_rebind_if(n, r):
+    return ['def fn_clamp{n}(par_amt{n}):',
+            '    if par_amt{n} > 3:',
+            '        par_amt{n} = 3',
+            '        print(par_amt{n} + 100)',
+            '    return par_amt{n}',
+            'print(fn_clamp{n}(5), fn_clamp{n}(1))'], {}
+
+
+def u_rebind_try(n, r):
+    return ['def fn_conv{n}(par_raw{n}):',
+            '    try:',
+            '        par_raw{n} = int(par_raw{n})',
+            '        print(par_raw{n} * 2)',
+            '    except ValueError:',
+            '        par_raw{n} = -1',
+            '    return par_raw{n}',
+            'print(fn_conv{n}("21"), fn_conv{n}("x"))'], {}
+
+
+def u_rebind_while(n, r):
+    return ['def fn_halve{n}(par_num{n}, var_steps{n}=0):',
+            '    while par_num{n} > 1:',
+            '        par_num{n} = par_num{n} // 2',
+            '        var_steps{n} = var_steps{n} + par_num{n}',
+            '    return par_num{n} + var_steps{n}',
+            'print(fn_halve{n}(9), fn_halve{n}(1))'], {}
+
+
 # ---- multi-module units
 
 def m_import_module(n, r):
@@ -268,7 +297,7 @@ def m_submodule(n, r):
 
 SINGLE = [u_function, u_class, u_inherit, u_closure_nonlocal, u_closure, u_comp_filter, u_comp, u_loop,
           u_try, u_lambda, u_generator, u_decorator, u_property, u_global, u_with, u_starargs, u_dicts,
-          u_walrus_while, u_method_chain]
+          u_walrus_while, u_method_chain, u_rebind_if, u_rebind_try, u_rebind_while]
 MULTI = [m_import_module, m_from_import, m_alias, m_reexport, m_keyword_across, m_submodule]
 
 
